@@ -39,7 +39,7 @@ static inline TextName split_text(const std::string &t) {
   for (char c : t) { if (c == '.') { parts.push_back(cur); cur.clear(); } else cur.push_back(c); }
   parts.push_back(cur);
   // "": one empty part = root. "a." = {a,""} -> absolute.
-  if (parts.size() == 1 && parts[0].empty()) { r.absolute = true; return r; }
+  if ((parts.size() == 1 && parts[0].empty()) || t == ".") { r.absolute = true; return r; }   // "" and "." both name the root
   if (parts.back().empty()) { r.absolute = true; parts.pop_back(); }
   for (auto &p : parts) { if (p.empty()) { r.empty_label = true; r.ok = false; } if (p.size() > 63) { r.long_label = true; r.ok = false; } r.labels.push_back(p); }
   if (wire_len(r.labels) > 255) { r.too_long = true; r.ok = false; }
